@@ -173,3 +173,51 @@ func Neighbour(t *rapid.T, n Name, label string) Name {
 	}
 	return c
 }
+
+// GenTTL draws a TTL over the full 32-bit range with a bias to boundaries.
+func GenTTL(t *rapid.T, label string) uint32 {
+	switch rapid.IntRange(0, 5).Draw(t, label+"Kind") {
+	case 0:
+		return rapid.SampledFrom([]uint32{0, 1, 2, 4, 5, 6, 29, 30, 31, 299, 300, 301, 3600, 1<<31 - 1, 1 << 31, 1<<32 - 1}).Draw(t, label+"B")
+	case 1:
+		return uint32(rapid.Uint32().Draw(t, label+"U"))
+	default:
+		return uint32(rapid.IntRange(1, 600).Draw(t, label+"S"))
+	}
+}
+
+// GenRR draws one resource record owned by owner (presentation form).
+func GenRR(t *rapid.T, owner string, ttl uint32, label string) dns.RR {
+	h := func(rt uint16) dns.RR_Header {
+		return dns.RR_Header{Name: owner, Rrtype: rt, Class: dns.ClassINET, Ttl: ttl}
+	}
+	switch rapid.IntRange(0, 7).Draw(t, label+"Type") {
+	case 0:
+		ip := rapid.SliceOfN(rapid.Byte(), 4, 4).Draw(t, label+"A")
+		return &dns.A{Hdr: h(dns.TypeA), A: ip}
+	case 1:
+		ip := rapid.SliceOfN(rapid.Byte(), 16, 16).Draw(t, label+"AAAA")
+		ip[0] = 0x20 // keep it a real IPv6 (not v4-mapped, which miekg would refuse to pack as AAAA)
+		return &dns.AAAA{Hdr: h(dns.TypeAAAA), AAAA: ip}
+	case 2:
+		return &dns.CNAME{Hdr: h(dns.TypeCNAME), Target: GenName(t, label+"Cn").String()}
+	case 3:
+		n := rapid.IntRange(1, 3).Draw(t, label+"TxtN")
+		var txt []string
+		for i := 0; i < n; i++ {
+			txt = append(txt, rapid.StringMatching(`[a-z0-9 ]{0,40}`).Draw(t, label+"Txt"))
+		}
+		return &dns.TXT{Hdr: h(dns.TypeTXT), Txt: txt}
+	case 4:
+		return &dns.MX{Hdr: h(dns.TypeMX), Preference: uint16(rapid.IntRange(0, 65535).Draw(t, label+"Pref")), Mx: GenName(t, label+"Mx").String()}
+	case 5:
+		return &dns.SOA{Hdr: h(dns.TypeSOA), Ns: GenName(t, label+"Ns").String(), Mbox: GenName(t, label+"Mb").String(),
+			Serial: rapid.Uint32().Draw(t, label+"Ser"), Refresh: 1800, Retry: 900, Expire: 604800, Minttl: rapid.Uint32().Draw(t, label+"Min")}
+	case 6:
+		return &dns.SRV{Hdr: h(dns.TypeSRV), Priority: 1, Weight: 2, Port: uint16(rapid.IntRange(0, 65535).Draw(t, label+"Port")), Target: GenName(t, label+"Srv").String()}
+	default:
+		data := rapid.SliceOfN(rapid.Byte(), 0, 20).Draw(t, label+"Opaque")
+		rt := uint16(rapid.IntRange(65280, 65534).Draw(t, label+"Priv"))
+		return &dns.RFC3597{Hdr: h(rt), Rdata: fmt.Sprintf("%x", data)}
+	}
+}
